@@ -13,6 +13,7 @@ The model mirrors the *repaired* code (fixes/C10-1 … C10-8):
   C10-6  `clef_map` on a part without time points
   C10-7  `metrical_position_map` with exactly one measure uses the general branch
   C10-8  the pickup-corrected start of the first measure is rounded, not truncated
+  C10-11 `clef_map`: a clef without a line (MusicXML percussion / TAB clefs) is reported with line 0
 
 A table is the list of rows `(time, value)` handed to `interp1d(x, y, kind="previous",
 fill_value="extrapolate")`, in the order `Part.iter_all` delivers the elements (time order).
@@ -115,15 +116,18 @@ def ksMap (span : Span) (kss : List (Int × Int × Mode)) (x : Int) : Option KSv
 /-- (staff, sign code, line, octave_change) -/
 abbrev ClefV := Int × Int × Int × Int
 
-/-- a clef as stored in the part: time, staff, sign, line, octave_change (`None` -> 0) -/
-abbrev RawClef := Int × Int × String × Int × Option Int
+/-- a clef as stored in the part: time, staff, sign, line (`None` -> 0, repaired: fixes/C10-11),
+    octave_change (`None` -> 0) -/
+abbrev RawClef := Int × Int × String × Option Int × Option Int
 
 /-- the rows of `clefs`; `none` = `KeyError` of `clef_sign_to_int` -/
 def clefRows : List RawClef → Option (Tbl ClefV)
   | [] => some []
   | (t, st, sign, line, oc) :: rest =>
     match clefSignToInt sign, clefRows rest with
-    | some code, some rs => some ((t, (st, code, line, match oc with | some o => o | none => 0)) :: rs)
+    | some code, some rs =>
+      some ((t, (st, code, (match line with | some l => l | none => 0),
+                 match oc with | some o => o | none => 0)) :: rs)
     | _, _ => none
 
 /-- `compute_number_of_staves`: the largest staff number of any note, clef, direction or words; at least 1 -/
